@@ -41,6 +41,17 @@ Definition op_bytes (kind : Z) (a b c : Z) : bytes :=
   let raw := (nz a, nz b, nz c) in
   if Z.eqb kind 1 then canon_bytes raw else raw.
 
+(** operation kind 9 = "the previous operation again, very many times" (harness: the first and
+    the last of these applications are observed): in the model the operation is applied twice
+    -- feeding one message again and again is stable after the first repetition *)
+Fixpoint expand9 (p0 p1 p2 p3 : Z) (l : list Z) : list Z :=
+  match l with
+  | k :: a :: b :: c :: t =>
+      if Z.eqb k 9 then p0 :: p1 :: p2 :: p3 :: p0 :: p1 :: p2 :: p3 :: expand9 p0 p1 p2 p3 t
+      else k :: a :: b :: c :: expand9 k a b c t
+  | _ => l
+  end.
+
 Fixpoint dec_cc14ops (l : list Z) : list cc14op :=
   match l with
   | k :: a :: b :: c :: t =>
@@ -1166,7 +1177,9 @@ Definition check (tag : Z) (inp obs : list Z) : verdict :=
   | 71, ch :: cn :: v :: k :: prior =>
       verdict_of obs (model_71 (nz ch) (nz cn) (nz v) k (dec_cc14ops prior))
         (spec_71 (nz ch) (nz cn) (nz v))
-  | 80, h => verdict_of obs (model_80 (dec_cc14ops h)) (spec_80 (dec_cc14ops h))
+  | 80, h0 =>
+      let h := expand9 0 248 0 0 h0 in
+      verdict_of obs (model_80 (dec_cc14ops h)) (spec_80 (dec_cc14ops h))
   | 90, [k; ch; num; v; order] =>
       verdict_of obs (with_flag (model_90 k (nz ch) (nz num) (nz v) order))
                      (with_flag (spec_90 k (nz ch) (nz num) (nz v) order))
@@ -1178,7 +1191,9 @@ Definition check (tag : Z) (inp obs : list Z) : verdict :=
       verdict_of obs
         (model_101 (nz ch) (Z.eqb reg 1) (nz num) (nz n) kind (dec_pnops prior) vs)
         (spec_101 (nz ch) (Z.eqb reg 1) (nz num) (nz n) vs)
-  | 110, h => verdict_of obs (model_110 (dec_pnops h)) (spec_110 (dec_pnops h))
+  | 110, h0 =>
+      let h := expand9 0 248 0 0 h0 in
+      verdict_of obs (model_110 (dec_pnops h)) (spec_110 (dec_pnops h))
   | 120, timeout :: nprior :: rest =>
       let '(prior, sentence) := take_ops (Z.to_nat nprior) rest in
       check_120 (dec_timeout timeout) (dec_sops prior) (dec_sops sentence) obs
